@@ -757,6 +757,9 @@ def generate(family, seed, count):
     if family == "model":
         import l3
         return l3.scripts("thorough" if count > 5000 else "quick")
+    if family == "modelrecv":
+        import l3
+        return l3.scripts_recv("thorough" if count > 5000 else "quick")
     rng = random.Random("%s-%d" % (family, seed))
     f = FAMILIES[family]
     return [f(rng, i) for i in range(count)]
